@@ -10,9 +10,19 @@ def run(ctx):
     ctx.extra["rule"] = ("op sequences on BumpBox<[T]>, FixedBumpVec, BumpVec, MutBumpVec, MutBumpVecRev (sized and zero-sized elements, 4 arena "
                          "configurations: both directions, minimum alignments 1/8/16) next to std::vec::Vec / VecDeque; boundary and out-of-range "
                          "arguments; capacity promises; distinct_nontrivial counts distinct op lines replayed on the model")
+    ctx.partial += [
+        "refinement to List functions proved for: retain, dedup_by, truncate, clear, pop, pop_if, remove, swap_remove, push, insert, "
+        "extend_from_slice_clone, resize, resize_with, append, drain(+keep_rest), extract_if, into_iter, map_in_place, reservation policy "
+        "(fits => same buffer, promise kept, FixedBumpVec refuses exactly when full, BumpVec never refuses); MutBumpVecRev (mirrored): push, pop, "
+        "truncate, insert, remove, swap_remove, extend_from_slice_clone, append",
+        "std-differential oracle only (not modelled): splice, dedup_by_key, extend_from_within_clone, reserve_exact, shrink_to_fit, into_flattened, "
+        "BumpVec::map, MutBumpVecRev::{pop_if, resize_with, resize (proved for C06 only)}",
+        "capacity of MutBumpVec / MutBumpVecRev after growth is an observed input of the model (the arena decides); `cap >= promised` for them is an oracle check",
+        "zero-sized element types (capacity usize::MAX, lengths) by oracle only",
+    ]
     proved = prove(ctx, MODULES)
-    run_coll(ctx, 2000 if q else 60000, 14, "std", oracle_props=["C08"])
-    run_coll(ctx, 150 if q else 4000, 12, "general", oracle_props=["C08"], label="general(with faults)")
+    run_coll(ctx, 2000 if q else 300000, 14, "std", oracle_props=["C08"])
+    run_coll(ctx, 150 if q else 40000, 12, "general", oracle_props=["C08"], label="general(with faults)")
     if (not proved or ctx.disagreements) and not ctx.oracle_failures and q:
         ctx.notes.append("proof/correspondence broken: running the thorough-tier search for a failing input")
         run_coll(ctx, 4000, 16, "std", oracle_props=["C08"], seed_offset=1000, label="deep-search")
